@@ -670,9 +670,13 @@ package pdf
 //@   requires r != nil && f != nil
 //@   assigns *
 
+// ReadAll closes the filter chain it opened on every return (C05, C08: a filter's helper
+// goroutine ends when its reader is closed).  \local_in is the local variable "in".
 //@ func ReadAll (r, path, stream, limit) (data, err)
-//@   trusted
+//@   tags C05 C08
+//@   claims post/
 //@   assigns *
+//@   ensures \local_in != nil ==> \local_in.closed
 
 //@ func GetFilters (r, path, dict) (res, err)
 //@   tags C05
@@ -680,16 +684,39 @@ package pdf
 //@   assigns *
 
 //@ func DecodeStream (r, path, x) (rd, err)
-//@   tags C05
-//@   claims pre/GetFilters/ pre/(Getter).Get/ pre/resolve
+//@   tags C05 C08
+//@   claims pre/GetFilters/ pre/(Getter).Get/ pre/resolve post/
 //@   requires r != nil && x != nil
 //@   assigns *
+//@   ensures err != nil ==> rd == nil
+//@   ensures err != nil && len(\local_filters) > 0 && \local_out != nil ==> \local_out.closed
+//@   ensures err != nil ==> forall i in 0..len(\local_lower) :: \local_lower[i].closed
+//@   loop 2: invariant \local_out.closed && forall j in 0..\done :: \local_lower[j].closed
 
+// closing the reader returned by DecodeStream closes every layer (found failing on the pinned
+// tree: fix 5d066de)
+//@ func (*sourceAwareReader).Close (s) (err)
+//@   index-hints
+//@   tags C05 C08
+//@   requires s.inner != nil && forall i in 0..len(s.lower) :: s.lower[i] != nil
+//@   assigns \any.closed
+//@   ensures s.inner.closed && forall i in 0..len(s.lower) :: s.lower[i].closed
+//@   loop 1: invariant s.inner.closed && forall j in 0..\done :: s.lower[j].closed
+
+// a decoder that is not handed to the caller is closed (found failing on the pinned tree:
+// fix 4c2399c for getObjStm, 67b5023 for readXRefStream)
 //@ func getObjStm (r, stream, getInt, enc) (res, err)
 //@   tags C05
-//@   claims pre/DecodeStream/ pre/(Getter).Get/ pre/resolve
+//@   claims pre/DecodeStream/ pre/(Getter).Get/ pre/resolve post/
 //@   requires r != nil && stream != nil
 //@   assigns *
+//@   ensures err != nil && \local_decoded != nil ==> \local_decoded.closed
+
+//@ func (*Reader).readXRefStream (r, xref, s) (dict, ref, err)
+//@   tags C05
+//@   claims post/
+//@   assigns *
+//@   ensures \local_decoded != nil ==> \local_decoded.closed
 
 // ---- AES-CBC with PKCS#7 padding (C10; ISO 32000-2, 7.6.3.1) ----
 // unpadPKCS7 accepts exactly the buffers whose last byte p satisfies 1 <= p <= 16 and whose
